@@ -84,6 +84,11 @@ static struct xcm_socket *g_xl[2];
 static int g_rawl[2] = { -1, -1 };
 static int g_need_srv;
 
+static const char *ename(int e)
+{
+    return e == EAFNOSUPPORT ? "EAFNOSUPPORT" : errname(e);
+}
+
 static void sample(void)
 {
     /* virtual time that passed while the environment withheld the answer to an attempt it would
@@ -101,8 +106,20 @@ static void sample(void)
     }
 }
 
+/* Overwrite the dead part of the calling task's stack: whatever an API call left in its own
+   (returned) frames is gone, as it would be after the application has called anything else.  A pointer
+   the library kept into such a frame now reads 0xA5.. deterministically (plain build; the asan build
+   reports the access itself). */
+static void __attribute__((noinline)) scrub_stack(void)
+{
+    volatile unsigned char pad[24 * 1024];
+    for (size_t i = 0; i < sizeof pad; i++)
+        pad[i] = 0xA5;
+}
+
 static void note(void)
 {
+    scrub_stack();
     sample();
     int n = env_connect_log_count();
     for (; g_seen_conn < n && g_seen_conn < 260; g_seen_conn++)
@@ -404,7 +421,7 @@ static void cli_done(int connected, int err, const char *by)
     g_t_end = env_now_ns();
     g_cli_done = 1;
     mc_observe("outcome: %s%s reported by %s after %lld ms", connected ? "connected" : "failed ",
-               connected ? "" : errname(err), by, (long long)((g_t_end - g_t0) / 1000000));
+               connected ? "" : ename(err), by, (long long)((g_t_end - g_t0) / 1000000));
 }
 
 static void cli_task(void *arg)
@@ -457,7 +474,7 @@ static void cli_task(void *arg)
         err = errno;
         g_calls++;
         note();
-        mc_observe("%s -> %d %s", op, rc, rc < 0 ? errname(err) : "");
+        mc_observe("%s -> %d %s", op, rc, rc < 0 ? ename(err) : "");
         if (rc > 0 || (rc == 0 && t_probe != PR_RECEIVE)) {
             const char *r = API("xcm_remote_addr", 1, xcm_remote_addr(s));
             snprintf(g_remote, sizeof g_remote, "%s", r ? r : "(null)");
@@ -554,7 +571,7 @@ static void got_str(char *out, size_t n, int remote_idx)
     if (g_connected)
         snprintf(out, n, "connected-to-%s", remote_idx >= 0 ? POLN[t_pol[remote_idx]] : "unknown");
     else
-        snprintf(out, n, "%s", errname(g_errno));
+        snprintf(out, n, "%s", ename(g_errno));
 }
 
 #define VIOL(sig, ...) do { mc_violation(sig, __VA_ARGS__); } while (0)
@@ -680,7 +697,7 @@ static void oracle_conn(enum mc_end end)
     if (!g_connected && g_errno == ENOENT) {
         /* legitimate only if the resolution exceeded dns.timeout */
         if (!(t_dns == DNS_LATE && el >= g_dnsto_ns)) {
-            snprintf(sig, sizeof sig, "C13/outcome/alg=%s/laddr=%s/want=attempts/got=ENOENT/tp=%s", ALGN[t_alg], lak, g_tp);
+            snprintf(sig, sizeof sig, "C13/outcome/alg=%s/laddr=%s/unexplained-errno=ENOENT/tp=%s", ALGN[t_alg], lak, g_tp);
             VIOL(sig, "ENOENT although the resolver answered within dns.timeout (+%lld ms) [%s]", (long long)(el / 1000000),
                  t_desc);
         } else
@@ -710,46 +727,42 @@ static void oracle_conn(enum mc_end end)
             if (t_list[i] == ridx && eff(i) == EFF_A)
                 in_list = 1;
         if (!in_list) {
-            snprintf(sig, sizeof sig, "C13/outcome/alg=%s/laddr=%s/want=%s/got=%s/tp=%s", ALGN[t_alg], lak,
-                     any_acc ? "connected-to-eligible-address" : "failure", got, g_tp);
+            snprintf(sig, sizeof sig, "C13/outcome/alg=%s/laddr=%s/want=%s/got=connected-to-ineligible-address/tp=%s",
+                     ALGN[t_alg], lak, any_acc ? "connected" : "failure", g_tp);
             VIOL(sig, "connected to %s, which is not an eligible accepting address of the answer [%s]", g_remote, t_desc);
             return;
         }
-    }
-    if (slow) {
-        /* relaxed: accepting/refusing addresses may have behaved as silent ones */
-        if (!g_connected) {
-            int ok = g_errno == ETIMEDOUT;
-            for (int i = 0; i < N; i++)
-                if (eff(i) != EFF_A && eff_errno(eff(i)) == g_errno)
-                    ok = 1;
-            if (!ok) {
-                snprintf(sig, sizeof sig, "C13/outcome/alg=%s/laddr=%s/want=errno-of-an-attempt/got=%s/tp=%s", ALGN[t_alg],
-                         lak, got, g_tp);
-                VIOL(sig, "failure errno %s is not the errno of any attempt this world can produce [%s]", got, t_desc);
-            }
+    } else {
+        /* never acceptable: an errno that no attempt in this world can end in */
+        int ok = g_errno == ETIMEDOUT;
+        for (int i = 0; i < N; i++)
+            if (eff(i) != EFF_A && eff_errno(eff(i)) == g_errno)
+                ok = 1;
+        if (!ok) {
+            snprintf(sig, sizeof sig, "C13/outcome/alg=%s/laddr=%s/unexplained-errno=%s/tp=%s", ALGN[t_alg], lak, got, g_tp);
+            VIOL(sig, "%s: the outcome is %s (reported by %s after %lld ms, %d connect() calls), which is not the errno of "
+                 "any attempt this world can produce%s [%s]", ALGN[t_alg], got, g_by, (long long)(el / 1000000), nconn,
+                 any_acc ? "; an eligible address accepts" : "", t_desc);
+            return;
         }
-        return;
     }
+    if (slow)           /* relaxed: accepting/refusing addresses may have behaved as silent ones */
+        return;
     if (single || t_alg == ALG_SEQ) {
         int want_conn = first_acc >= 0;
         int want_errno = want_conn ? 0 : eff_errno(eff(N - 1));
         int ok = want_conn ? (g_connected && ridx == t_list[first_acc]) : (!g_connected && g_errno == want_errno);
         if (!ok) {
-            char want[64];
-            if (want_conn)
-                snprintf(want, sizeof want, "connected-to-%s-accepting", single ? "first" : "first");
-            else
-                snprintf(want, sizeof want, "%s", errname(want_errno));
-            snprintf(sig, sizeof sig, "C13/outcome/alg=%s/laddr=%s/want=%s/got=%s%s/tp=%s", ALGN[t_alg], lak, want, got,
-                     (g_connected && want_conn) ? "-later-in-list" : "", g_tp);
+            snprintf(sig, sizeof sig, "C13/outcome/alg=%s/laddr=%s/want=%s/got=%s%s/tp=%s", ALGN[t_alg], lak,
+                     want_conn ? "connected" : "failure", g_connected ? "connected" : got,
+                     (g_connected && want_conn) ? "-to-later-address" : "", g_tp);
             if (want_conn)
                 VIOL(sig, "%s: the first accepting address is #%d %s, outcome is %s%s%s (reported by %s after %lld ms, "
                      "%d connect() calls) [%s]", ALGN[t_alg], first_acc, ANAME[t_list[first_acc]], got,
                      g_connected ? " " : "", g_connected ? g_remote : "", g_by, (long long)(el / 1000000), nconn, t_desc);
             else
                 VIOL(sig, "%s: no eligible address accepts, the last failed attempt (#%d %s) ends in %s, outcome is %s%s%s "
-                     "(reported by %s after %lld ms) [%s]", ALGN[t_alg], N - 1, ANAME[t_list[N - 1]], errname(want_errno),
+                     "(reported by %s after %lld ms) [%s]", ALGN[t_alg], N - 1, ANAME[t_list[N - 1]], ename(want_errno),
                      got, g_connected ? " " : "", g_connected ? g_remote : "", g_by, (long long)(el / 1000000), t_desc);
         }
         return;
@@ -763,15 +776,14 @@ static void oracle_conn(enum mc_end end)
         }
     } else {
         int e4 = last4 >= 0 ? eff_errno(eff(last4)) : -1, e6 = last6 >= 0 ? eff_errno(eff(last6)) : -1;
-        if (g_connected || (g_errno != e4 && g_errno != e6)) {
-            snprintf(sig, sizeof sig, "C13/outcome/alg=%s/laddr=%s/want=errno-of-last-attempt/got=%s/tp=%s", ALGN[t_alg], lak,
-                     got, g_tp);
+        if (g_errno != e4 && g_errno != e6) {
+            snprintf(sig, sizeof sig, "C13/outcome/alg=%s/laddr=%s/want=failure/got=%s/tp=%s", ALGN[t_alg], lak, got, g_tp);
             VIOL(sig, "happy_eyeballs: nothing accepts; the last attempts end in %s (IPv4 track) / %s (IPv6 track), outcome "
-                 "is %s [%s]", e4 >= 0 ? errname(e4) : "-", e6 >= 0 ? errname(e6) : "-", got, t_desc);
+                 "is %s [%s]", e4 >= 0 ? ename(e4) : "-", e6 >= 0 ? ename(e6) : "-", got, t_desc);
         }
     }
     /* INFO only: the 200 ms head start of IPv6 */
-    if (last6 >= 0 && first_v4_att >= 0 && first_v4_att < 260) {
+    if (t_laddr == LA_NONE && last6 >= 0 && first_v4_att >= 0 && first_v4_att < 260) {
         int64_t t_res = g_att_start[0];
         if (g_att_start[first_v4_att] - t_res < NS / 5 - SLACK_NS)
             mc_info("C13/info/ipv4-head-start", "happy_eyeballs: first IPv4 connect() %lld ms after the first attempt "
@@ -868,6 +880,11 @@ static void scenario(const char *params)
         return;
     }
     choose_table(params);
+    mc_count(0, 1);
+    if (param_int(params, "count", 0)) {      /* table census: every execution of level 0 is one table */
+        mc_outcome("%s", t_desc);
+        return;
+    }
     world_setup();
     g_need_srv = g_xsrv || t_probe == PR_RECEIVE;
     mc_task_create("cli", cli_task, NULL);
@@ -877,7 +894,7 @@ static void scenario(const char *params)
     sample();
     oracle_conn(end);
     mc_outcome("%s tp=%s -> %s%s%s by=%s t=+%lldms conn=%d bind=%d", t_desc, g_tp,
-               !g_cli_done ? "no-outcome" : (g_connected ? "connected " : errname(g_errno)),
+               !g_cli_done ? "no-outcome" : (g_connected ? "connected " : ename(g_errno)),
                g_connected ? g_remote : "", "", g_by, (long long)((g_t_end - g_t0) / 1000000),
                env_connect_log_count(), env_bind_log_count());
 }
